@@ -19,8 +19,8 @@ VERIF = os.path.dirname(os.path.dirname(os.path.abspath(__file__)))
 sys.path.insert(0, VERIF)
 from harness import core, gen_code  # noqa: E402
 
-COPY = "/tmp/mut_E3"
-SCRATCH = "/tmp/mut_E3_out"
+COPY = os.environ.get("MUT_COPY", "/tmp/mut_E3")          # MUT_COPY=/tmp/mut_tr5 when several agents run the tool at once
+SCRATCH = COPY + "_out"
 
 # (name, kind, file, [(old text, new text)], Props id, expectation)
 MUTATIONS = [
@@ -256,6 +256,19 @@ MUTATIONS = [
      [("home_positions = home_positions - cells_away.dot(cell)", "home_positions = home_positions + cells_away.dot(cell)")], "C01", "fail"),
     ("near window: cell.dot(cells_away) (columns instead of rows)", "breaking", "mofun/mofun.py",
      [("home_positions = home_positions - cells_away.dot(cell)", "home_positions = home_positions - cell.dot(cells_away)")], "C01", "fail"),
+    # ---- fifth batch: replace_pattern_in_structure
+    ("unchanged (fifth batch)", "control", None, [], "C04:5", "all pass"),
+    ("replace: round -> int (truncation: outside the subset)", "unsupported", "mofun/mofun.py",
+     [("k=round(replace_fraction * len(match_positions))", "k=int(replace_fraction * len(match_positions))")], "C04:5", "Unsupported"),
+    ("replace: sample size from one match fewer", "breaking", "mofun/mofun.py",
+     [("k=round(replace_fraction * len(match_positions))", "k=round(replace_fraction * (len(match_positions) - 1))")], "C04:5", "fail"),
+    ("replace: sample size rounded up (round(x + 0.5))", "breaking", "mofun/mofun.py",
+     [("k=round(replace_fraction * len(match_positions))", "k=round(replace_fraction * len(match_positions) + 0.5)")], "C04:5", "fail"),
+    ("replace: sample branch also for fraction 1 (< -> <=)", "breaking", "mofun/mofun.py",
+     [("if replace_fraction < 1.0:", "if replace_fraction <= 1.0:")], "C04:5", "fail"),
+    ("replace: factors of the sample size swapped, guard written as 1.0 > f", "neutral", "mofun/mofun.py",
+     [("k=round(replace_fraction * len(match_positions))", "k=round(len(match_positions) * replace_fraction)"),
+      ("if replace_fraction < 1.0:", "if 1.0 > replace_fraction:")], "C04:5", "pass"),
     # ---- leaving the subset
     ("max_bond_length: while loop added (outside the subset)", "unsupported", "mofun/detect_bonds.py",
      [('    """Return the maximum length of a bond between two elements"""\n', '    while False:\n        pass\n')], "C17", "Unsupported"),
@@ -288,7 +301,8 @@ def scratch_file(ids, code_text):
             visit(m)
         order.append(mod)
     for i in ids:
-        visit_props = "MofunModel.Props.%sCode" % i
+        # `C04` names Props/C04Code.lean, `C04:5` names Props/C04Code5.lean (the files of the fifth batch)
+        visit_props = "MofunModel.Props.%sCode%s" % tuple((i + ":").split(":")[:2])
         for m in _IMPORT.findall(open(os.path.join(core.LEAN, *visit_props.split(".")) + ".lean").read()):
             visit(m)
         order.append(visit_props)
